@@ -5,6 +5,7 @@ package main
 import (
 	"fmt"
 	"go/constant"
+	"go/token"
 	"go/types"
 	"math/big"
 	"strconv"
@@ -336,6 +337,30 @@ func (g *fnGen) evalIdent(name string, env *evalEnv) (string, types.Type, error)
 		return b.term, b.typ, nil
 	}
 	switch name {
+	case "rangelen":
+		// length of the collection ranged over by the innermost enclosing `for … := range` loop (the bound the
+		// hidden index is compared with; it is computed once before the loop, so it survives heap havoc)
+		if v, ok := g.localByName("rangeindex", env); ok {
+			if al, ok := v.(*ssa.Alloc); ok {
+				for _, b := range g.fn.Blocks {
+					if !strings.HasPrefix(b.Comment, "rangeindex.loop") {
+						continue
+					}
+					stores := false
+					for _, ins := range b.Instrs {
+						if st, ok := ins.(*ssa.Store); ok && st.Addr == al {
+							stores = true
+						}
+						if bo, ok := ins.(*ssa.BinOp); ok && stores && bo.Op == token.LSS {
+							if t, ok := g.vals[bo.Y]; ok {
+								return t, tInt_, nil
+							}
+						}
+					}
+				}
+			}
+		}
+		return "", nil, fmt.Errorf("rangelen used outside a range loop over a slice")
 	case "nil":
 		return "0", nilType{}, nil
 	case "true":
